@@ -93,6 +93,19 @@ theorem periodic_shift (fmod : α → α → α) (h : FmodSpec fmod) {β : Type}
     (by rw [hk, hk']; push_cast; ring)
   rw [this]
 
+/-- for a non-negative argument the inner argument is `fmod x p` itself: no addition, hence (at `Float`) no rounding
+beyond the exact `fmod` -- the S oracle "inner argument is the exact image" relies on this shape -/
+theorem remainder_nonneg (fmod : α → α → α) (h : FmodSpec fmod) (x p : α) (hp : 0 < p) (hx : 0 ≤ x) :
+    remainder fmod x p = fmod x p := by
+  obtain ⟨_, _, hpos, _⟩ := h x p hp
+  rw [remainder_pos fmod x p hp, if_neg (not_lt.mpr (hpos hx))]
+
+/-- an exact multiple of the period is mapped to 0, from either side -/
+theorem remainder_multiple (fmod : α → α → α) (h : FmodSpec fmod) (p : α) (hp : 0 < p) (n : ℤ) :
+    remainder fmod (n * p) p = 0 := by
+  obtain ⟨k, hk⟩ := remainder_congruent fmod h (n * p) p hp
+  exact unique_rep p _ 0 hp (remainder_range fmod h _ p hp) ⟨le_refl 0, hp⟩ (n - k) (by rw [hk]; push_cast; ring)
+
 /-- a zero period switches periodicity off for that axis (2-D/3-D wrappers) -/
 theorem remainder_zero_period (fmod : α → α → α) (x : α) : remainder fmod x 0 = x := by
   simp [remainder]
